@@ -597,6 +597,11 @@ func FrameUnit(p *Program, prop string) *Unit {
 		}
 		writers = append(writers, wr{gw.Var, gw.Func, gw.Kind, gw.Pos})
 	}
+	// writes through copies of references held by package-level variables (aliases.go)
+	aliasEvents, _ := GlobalAliasWrites(p)
+	for _, gw := range aliasEvents {
+		writers = append(writers, wr{gw.Var, gw.Func, gw.Kind, gw.Pos})
+	}
 	// roots: exported functions and methods (non-test), minus init and declared mutators
 	isMutator := map[string]bool{}
 	for _, g := range p.Contracts.Globals {
